@@ -181,6 +181,7 @@ func (r *Run) StartScheduler() {
 			rnd = &lcg{uint64(s)*2862933555777941757 + 3037000493}
 		}
 		oi := 0
+		cancelledByScript := false
 		for {
 			select {
 			case <-r.done:
@@ -188,15 +189,36 @@ func (r *Run) StartScheduler() {
 			default:
 			}
 			if r.Sched == "order" && oi < len(r.Order) {
+				// script tokens: "<key>" wait until parked, then release;
+				// "?<key>" only wait until parked; "!cancel" cancel the context.
 				k := r.Order[oi]
-				if r.WaitParked(k, 200*time.Millisecond) {
-					r.Release(k)
-				} else {
-					r.mu.Lock()
-					r.Notes = append(r.Notes, "order: not parked: "+k)
-					r.mu.Unlock()
-				}
 				oi++
+				wait := 300 * time.Millisecond
+				if cancelledByScript {
+					wait = 2 * time.Millisecond // parked resolvers return by themselves once cancelled
+				}
+				switch {
+				case k == "!cancel":
+					cancelledByScript = true
+					r.Log(Event{E: "Cancel"})
+					if r.Cancel != nil {
+						r.Cancel()
+					}
+				case strings.HasPrefix(k, "?"):
+					if !r.WaitParked(k[1:], wait) && !cancelledByScript {
+						r.mu.Lock()
+						r.Notes = append(r.Notes, "order: not reached: "+k[1:])
+						r.mu.Unlock()
+					}
+				default:
+					if r.WaitParked(k, wait) {
+						r.Release(k)
+					} else if !cancelledByScript {
+						r.mu.Lock()
+						r.Notes = append(r.Notes, "order: not parked: "+k)
+						r.mu.Unlock()
+					}
+				}
 				continue
 			}
 			r.mu.Lock()
